@@ -342,7 +342,7 @@ def eval_case(ctx, case):
     b, caps, hist, err = execute(case, fault)
     try:
         if err and not (fault and hist["fired"]):
-            if err[0] == "LinAlgError" or "invalid numeric entries" in err[1]:  # the filter diverged (NaN rewards stop the decision): not a database matter
+            if "LinAlgError" in err[0] or "invalid numeric entries" in err[1]:  # the filter diverged (NaN rewards stop the decision): not a database matter
                 ctx.count("runs_skipped_filter_divergence")
                 return 0
             ctx.check(False, f"run-raised-{err[0]}", f"run raised {err[1]}", wit, mon="cardinality")
